@@ -12,9 +12,9 @@ from mc.kernel import key_of, violation
 ID = "C13"
 LEVEL = "exploration"
 RULE = (
-    "a case = (node kind, layout feature, position, pattern): 11 node kinds (name, call, parenthesised multi-line "
+    "a case = (node kind, layout feature, position, pattern): 17 node kinds (name, call, parenthesised multi-line "
     "expression, assignment, if block, decorated function, decorated class, with, string constant, lambda, attribute "
-    "chain) x 24 layout features (plain, indented 4/8, after ';', multi-byte characters earlier on the same line in a "
+    "chain, and six kinds with multi-byte characters inside the node) x 24 layout features (plain, indented 4/8, after ';', multi-byte characters earlier on the same line in a "
     "string / comment / identifier, no trailing newline, CRLF, CR, form feed and x1c-x1e, x85, U+2028/9 inside a "
     "literal and between statements, trailing blanks, preceding blank lines, tabs in a comment) x position (first / "
     "middle / last statement) x pattern (own text, wildcard pattern of the kind). oracle for every reported Match: "
@@ -41,6 +41,13 @@ KINDS = {
     "string": ("'lit'", "'lit'"),
     "lambda": ("lambda a: a + 1", "lambda {{a}}: {{b}}"),
     "attr_chain": ("obj.a.b(c)", "{{o}}.b({{...*}})"),
+    # multi-byte characters INSIDE the matched node (added after the seeded change C13-end-column-byte-width)
+    "string_mb": ("'\u00e9\u2192\U0001F600'", None),
+    "call_mb": ("f('\u017c\u00f3\u0142\u0107', x)", "f({{...*}})"),
+    "assign_mb": ("k = '\u00e9' + z\u00e9", "k = {{v}}"),
+    "name_mb": ("\u00e9t\u00e9", None),
+    "multiline_mb": ("(aa +\n    '\u00e9\u00e9' + bb)", None),
+    "def_mb": ("def fn(a):\n    return '\u2192' + a", None),
 }
 
 
